@@ -120,9 +120,30 @@ pub fn run(ctx: &Ctx) -> Result<Evidence, String> {
         let report = |what: String, extra: Value| {
             ctx.violate(&what, json!({"kind":"reference","document": serde_json::from_str::<Value>(&doc.text()).unwrap_or_default(), "detail": extra}));
         };
+        // paths the property does not specify (not Normalized Paths): run between the judged
+        // calls for crash-freedom and to expose state that leaks from one call into the next
+        let unjudged = |r: &mut Rng, l: &Loc| -> String {
+            let base = npath::render(l);
+            match r.below(9) {
+                0 => format!("{}[*]", base),
+                1 => format!("{}[-1]", base),
+                2 => format!("{}..a", base),
+                3 => format!("{}[?@]", base),
+                4 => format!("{}[0:1]", base),
+                5 => format!("{}['a','b']", base),
+                6 => format!("{}[", base),
+                7 => "$.a.b".to_string(),
+                _ => format!("{}[9007199254740992]", base),
+            }
+        };
         // (1) every location: reference(npath) is pointer-equal to the node
         for l in &locs {
             let p = npath::render(l);
+            if r.chance(1, 3) {
+                let u = unjudged(&mut r, l);
+                let _ = lib_reference(&doc.value, &u);
+                acc.count("unjudged_interleaved_calls", 1);
+            }
             acc.evaluations += 1;
             let want = libapi::addr(value_at(&doc.value, l));
             match lib_reference(&doc.value, &p) {
